@@ -12,6 +12,7 @@ def orgOfName : String → Option Org
   | "rgb565" => some { mstep := 2, b2m := 1, chans := 3, planar := false, nontrivial := false, pixel := true }
   | "gray1"  => some { mstep := 1, b2m := 8, chans := 1, planar := false, nontrivial := false, pixel := true }
   | "elem"   => some { mstep := 4, b2m := 1, chans := 1, planar := false, nontrivial := true,  pixel := false }
+  | "elemp"  => some { mstep := 4, b2m := 1, chans := 3, planar := true,  nontrivial := true,  pixel := true }
   | _ => none
 
 def partnerName : String → Option String
@@ -325,7 +326,7 @@ partial def judgeLoop (h : Hist) (names : List (List String)) (recs : List Rec) 
       else
       -- constructed elements alive = pixels of the live images
       let elems := r.slots.foldl (fun acc s => match s with | some x => acc + x.w * x.h | none => acc) 0
-      match (match r.c, r.d with | some c, some d => if c ≠ d + elems then some "constructed-elements-match-live-images" else none | _, _ => none) with
+      match (match r.c, r.d with | some c, some d => if c ≠ d + h.cfg.org.epp * elems then some "constructed-elements-match-live-images" else none | _, _ => none) with
       | some e => fail e
       | none =>
         match (if isEnd then none else judgeOp h ws prev r heap) with
